@@ -131,6 +131,7 @@ pub struct CanaryReport {
     pub entropy_repeatable: bool,
     pub layout_controlled: bool,
     pub layout_skew_acts: bool,
+    pub clock_pid_live: bool,
     pub distinct_outputs: usize,
     pub note: String,
 }
@@ -148,6 +149,7 @@ pub fn exec_canary(args: &Args) -> CanaryReport {
         entropy_repeatable: false,
         layout_controlled: false,
         layout_skew_acts: false,
+        clock_pid_live: false,
         distinct_outputs: 0,
         note: String::new(),
     };
@@ -195,13 +197,26 @@ pub fn exec_canary(args: &Args) -> CanaryReport {
     let base = Plan::plain("canary", keys[0]);
     let mut skewed = base.clone();
     skewed.skew_heap = 65_536;
-    skewed.skew_mmap = 1 << 20;
+    skewed.skew_mmap = (3 * 64 << 20) + 4096;
     skewed.env_pad = 3_000;
     if let (Ok((a, _)), Ok((b, lb))) = (
         sim_exec::launch_program(&env, &args.canary, &[], &dir, &dir, Colour::NoColor, &base, "cs0"),
         sim_exec::launch_program(&env, &args.canary, &[], &dir, &dir, Colour::NoColor, &skewed, "cs1"),
     ) {
         report.layout_skew_acts = a.stdout != b.stdout && lb.skewed;
+    }
+    // clock and pid seams: the canary must echo exactly what the plan says
+    let mut ident = base.clone();
+    ident.clock_base = 1_234_567_890;
+    ident.clock_step_ns = 777;
+    ident.pid = 31_337;
+    if let Ok((o, log)) = sim_exec::launch_program(&env, &args.canary, &[], &dir, &dir, Colour::NoColor, &ident, "ci") {
+        let text = String::from_utf8_lossy(&o.stdout).into_owned();
+        report.clock_pid_live = text.contains("wall=1234567890")
+            && text.contains("dt=777")
+            && text.contains("pid=31337")
+            && log.clock_reads == 3
+            && log.pid_reads == 1;
     }
     let _ = fs::remove_dir_all(&dir);
     report
@@ -246,6 +261,8 @@ struct Totals {
     forms: BTreeMap<String, u64>,
     colours: BTreeMap<String, u64>,
     inert: u64,
+    clock_reads: u64,
+    pid_reads: u64,
     same_signal_groups: u64,
     nontrivial_files: BTreeSet<String>,
     files: BTreeSet<String>,
@@ -276,6 +293,8 @@ fn accumulate(t: &mut Totals, r: &Value) {
         }
     }
     t.inert += r.get("inert").and_then(Value::as_u64).unwrap_or(0);
+    t.clock_reads += r.get("clock_reads").and_then(Value::as_u64).unwrap_or(0);
+    t.pid_reads += r.get("pid_reads").and_then(Value::as_u64).unwrap_or(0);
     if r.get("same_signal").and_then(Value::as_bool).unwrap_or(false) {
         t.same_signal_groups += 1;
     }
@@ -327,6 +346,8 @@ fn totals_json(t: &Totals) -> Value {
         "argv_forms": t.forms,
         "colour_modes": t.colours,
         "entropy_inert_launches": t.inert,
+        "simulated_clock_reads_by_gram": t.clock_reads,
+        "simulated_pid_reads_by_gram": t.pid_reads,
         "groups_all_launches_same_signal": t.same_signal_groups,
         "distinct_files_compared": t.files.len(),
         "distinct_files_nontrivial": t.nontrivial_files.len(),
@@ -419,9 +440,9 @@ pub fn run_main(args: &Args) -> i32 {
     println!(
         "canary: exec entropy live={} repeatable={} distinct={} | layout controlled={} skew acts={} | inproc live={} repeatable={} distinct={}",
         canary.entropy_live, canary.entropy_repeatable, canary.distinct_outputs,
-        canary.layout_controlled, canary.layout_skew_acts, ip_live, ip_repeatable, ip_distinct
+        canary.layout_controlled, canary.layout_skew_acts && canary.clock_pid_live, ip_live, ip_repeatable, ip_distinct
     );
-    if !(canary.entropy_live && canary.entropy_repeatable && ip_live && ip_repeatable) {
+    if !(canary.entropy_live && canary.entropy_repeatable && canary.clock_pid_live && ip_live && ip_repeatable) {
         eprintln!("HARNESS-ERROR: entropy seam is not live or not repeatable ({})", canary.note);
         return finish(2);
     }
@@ -550,9 +571,15 @@ pub fn run_main(args: &Args) -> i32 {
         }
         let m = sim_min::minimise(args, &spec, differing);
         if !m.reproduced {
+            let path = args.replays.join(format!("C13-s{}-{}-g{}.unreproduced.json", args.seed, tier.name(), idx));
+            let _ = write_json(&path, &json!({
+                "property": "C13", "seed": args.seed, "tier": tier.name(), "group": idx,
+                "note": "launches of this group differed during the run, but neither the pair, nor the group's launch history, nor the exec tier reproduced it in fresh processes; reported as a harness error, not as a violation",
+                "original": spec.to_json(), "original_differing_launch": differing, "recorded": r.get("obs"),
+            }));
             harness_errors.push(format!(
-                "group {idx} of tier {} differed during the run but did not reproduce in a fresh process",
-                tier.name()
+                "group {idx} of tier {} differed during the run but did not reproduce in a fresh process (recorded in {})",
+                tier.name(), path.display()
             ));
             continue;
         }
@@ -573,6 +600,8 @@ pub fn run_main(args: &Args) -> i32 {
             "minimised": m.spec.to_json(),
             "minimised_observations": m.obs.iter().map(sim_group::LaunchObs::to_json).collect::<Vec<_>>(),
             "minimiser_probes": m.probes,
+            "differing_launch": m.differing,
+            "reproduced_via": m.route,
             "original": spec.to_json(),
             "original_differing_launch": differing,
             "how_to_replay": "./check C13 --replay <this file>",
@@ -582,8 +611,8 @@ pub fn run_main(args: &Args) -> i32 {
             Err(e) => harness_errors.push(format!("cannot write replay: {e}")),
         }
         println!(
-            "  group {} [{}] {} difference in {:?}; minimised to {} bytes with {} probes",
-            idx, tier.name(), m.class, m.kinds, m.spec.source.len(), m.probes
+            "  group {} [{}] {} difference in {:?}; reproduced via {}; minimised to {} bytes and {} launches with {} probes",
+            idx, tier.name(), m.class, m.kinds, m.route, m.spec.source.len(), m.spec.plans.len(), m.probes
         );
     }
 
@@ -607,6 +636,7 @@ pub fn run_main(args: &Args) -> i32 {
             "exec_canary_distinct_outputs": canary.distinct_outputs,
             "layout_seam_controlled": canary.layout_controlled,
             "layout_skew_acts": canary.layout_skew_acts,
+            "exec_clock_and_pid_seam_live": canary.clock_pid_live,
             "inproc_entropy_seam_live": ip_live,
             "inproc_entropy_seam_repeatable": ip_repeatable,
             "inproc_canary_distinct_outputs": ip_distinct,
@@ -623,6 +653,7 @@ pub fn run_main(args: &Args) -> i32 {
             ],
             "simulated": [
                 "getrandom(2): LD_PRELOAD shim (exec) / in-binary symbol (inproc)",
+                "clock_gettime / gettimeofday / time and getpid: same two seams (gram never consults them on this tree: see simulated_clock_reads_by_gram)",
                 "address-space layout: ASLR off + seeded heap/mmap/stack displacement (exec tier only)"
             ],
             "stub": [
@@ -717,15 +748,19 @@ pub fn replay_main(args: &Args) -> i32 {
     println!("--- file ---\n{}", String::from_utf8_lossy(&spec.source));
     for (i, o) in p.obs.iter().enumerate() {
         println!("--- launch {} under plan {} ---", i, spec.plans[i].to_json());
+        let d = p.differing.unwrap_or(usize::MAX);
+        if i != 0 && i != d {
+            println!("(same as launch 0)");
+            continue;
+        }
         for (k, val) in &o.fields {
-            let differs = p.obs.len() == 2 && p.obs[0].field(k) != p.obs[1].field(k);
-            if differs || (p.obs.len() != 2 && !val.is_empty()) {
+            let differs = d < p.obs.len() && p.obs[0].field(k) != p.obs[d].field(k);
+            if differs || (d >= p.obs.len() && i == 0 && !val.is_empty()) {
                 println!("[{k}]\n{val}");
             }
         }
     }
-    if p.status == "violation" && p.obs.len() == 2 {
-        let (class, kinds) = sim_group::diff_signature(&p.obs[0], &p.obs[1]);
+    if let Some((class, kinds)) = p.signature() {
         let recorded: Vec<Value> = v.get("minimised_observations").and_then(Value::as_array).cloned().unwrap_or_default();
         let now: Vec<Value> = p.obs.iter().map(sim_group::LaunchObs::to_json).collect();
         let exact = recorded == now;
@@ -733,14 +768,14 @@ pub fn replay_main(args: &Args) -> i32 {
         println!("VIOLATION property=C13 replay={}", args.file.display());
         1
     } else {
-        println!("replay: both launches agree on this tree: NOT REPRODUCED (status {})", p.status);
+        println!("replay: all launches agree on this tree: NOT REPRODUCED (status {})", p.status);
         0
     }
 }
 
 /// Determinism of the harness itself: same seed => same event log, whatever the worker count.
 pub fn selftest_main(args: &Args) -> i32 {
-    let seeds = if args.selftest_seeds > 0 { args.selftest_seeds } else { 200 };
+    let seeds = if args.selftest_seeds > 0 { args.selftest_seeds } else { 40 };
     let corpus = Arc::new(sim_harvest::harvest(&args.repo));
     let mut bad = 0u64;
     let mut checked = 0u64;
